@@ -48,6 +48,8 @@ def special_pairs():
         ([{'a': 1}, {'b': 2}], [{'b': 2}, {'a': 1, 'c': 3}]),
         ({'a': b'xy'}, {'a': b'xz', 'b': 1.5}),
         ({'a': int}, {'a': str}),                                           # types as values
+        ({'user__name': 'a', 'filters': {'owner__id__in': [1], 'x_': 2}, '_p__q': 1}, {'user__name': 'b', 'filters': {'owner__id__in': [1, 2], 'y__': 3}, '_p__q': 2}),   # underscores inside keys
+        ({'limit': 10, 'tags': ['a'], 'n': None}, {'limit': None, 'tags': ['a', 'b'], 'n': 'None'}),      # None on either side of a type change
     ]
 
 
@@ -73,19 +75,21 @@ def json_domain(diff):
                        and len({repr(x) for x in v}) == len({(x if not isinstance(x, bool) else int(x)) for x in v}) for k, v in body.items()):
                 return False
             continue
-        if not json_plain({cat: body}):
+        if not json_plain({cat: body}, none_type=True):
             return False
     return True
 
 
-def json_plain(v):
-    """only JSON types with str keys, recursively (type objects allowed for old_type/new_type)"""
+def json_plain(v, none_type=False):
+    """only JSON types with str keys, recursively (type objects allowed for old_type/new_type).  none_type: NoneType as old_type / new_type too --
+    the JSON text carries it, but it is read back as None rather than type(None), so the reloaded payload is compared by behaviour only"""
     if v is None or isinstance(v, (bool, int, float, str)):
         return True
     if isinstance(v, list):
-        return all(json_plain(x) for x in v)
+        return all(json_plain(x, none_type) for x in v)
     if isinstance(v, dict):
-        return all(isinstance(k, str) and (json_plain(x) or (k in ('old_type', 'new_type') and isinstance(x, type) and x in (int, str, float, bool, list, dict)))
+        ok_types = (int, str, float, bool, list, dict) + ((type(None),) if none_type else ())
+        return all(isinstance(k, str) and (json_plain(x, none_type) or (k in ('old_type', 'new_type') and isinstance(x, type) and x in ok_types))
                    for k, x in v.items())
     return False
 
@@ -267,8 +271,9 @@ def run(ctx, impl_only=False):
     enc_lines, enc_meta, vm_lines, vm_meta = [], [], [], []
     try:
         for pi, (t1, t2) in enumerate(pairs):
-            for (mode, bidir, aiv) in (cfgs() if (pi < len(special_pairs()) or ctx.thorough()) else [ctx.rng.choice(cfgs()) for _ in range(3)]):
-                case = {'t1': repr(t1), 't2': repr(t2), 'mode': mode, 'bidirectional': bidir, 'always_include_values': aiv}
+            full = pi < len(special_pairs()) or ctx.thorough()
+            for (mode, bidir, aiv, rerr) in ([c + (r_,) for c in cfgs() for r_ in (False, True)] if full else [ctx.rng.choice(cfgs()) + (ctx.rng.random() < 0.5,) for _ in range(3)]):
+                case = {'t1': repr(t1), 't2': repr(t2), 'mode': mode, 'bidirectional': bidir, 'always_include_values': aiv, 'raise_errors': rerr}
                 try:
                     diff = DeepDiff(t1, t2, **dd_kwargs(mode))
                     d = Delta(diff, bidirectional=bidir, always_include_values=aiv)
@@ -328,15 +333,16 @@ def run(ctx, impl_only=False):
                         ctx.count('known_reload_failure')
                     continue
                 bases = [t1, t2, g.edit(t1)]
-                mk = lambda: Delta(diff, bidirectional=bidir, always_include_values=aiv)   # fresh object per application:
+                # rerr: half of the cases apply with raise_errors=True: a reloaded delta must not object where the original does not
+                mk = lambda: Delta(diff, bidirectional=bidir, always_include_values=aiv, raise_errors=rerr)   # fresh object per application:
                 ref_out = [outcome(lambda b_=b_: copy.deepcopy(b_) + mk()) for b_ in bases]  # a raising __rsub__ leaves a Delta reversed (finding F23, C08)
                 if bidir:
                     ref_out += [outcome(lambda b_=b_: copy.deepcopy(b_) - mk()) for b_ in bases]
-                loaders = {'bytes': lambda: Delta(b, bidirectional=bidir, always_include_values=aiv),
-                           'file': lambda: Delta(delta_file=io.BytesIO(b), bidirectional=bidir, always_include_values=aiv),
-                           'path': lambda: Delta(delta_path=p, bidirectional=bidir, always_include_values=aiv),
-                           'file_at_offset': lambda: Delta(delta_file=io.BytesIO(b), bidirectional=bidir, always_include_values=aiv),
-                           'disk_file_at_offset': lambda: Delta(delta_file=io.BytesIO(b), bidirectional=bidir, always_include_values=aiv)}
+                loaders = {'bytes': lambda: Delta(b, bidirectional=bidir, always_include_values=aiv, raise_errors=rerr),
+                           'file': lambda: Delta(delta_file=io.BytesIO(b), bidirectional=bidir, always_include_values=aiv, raise_errors=rerr),
+                           'path': lambda: Delta(delta_path=p, bidirectional=bidir, always_include_values=aiv, raise_errors=rerr),
+                           'file_at_offset': lambda: Delta(delta_file=io.BytesIO(b), bidirectional=bidir, always_include_values=aiv, raise_errors=rerr),
+                           'disk_file_at_offset': lambda: Delta(delta_file=io.BytesIO(b), bidirectional=bidir, always_include_values=aiv, raise_errors=rerr)}
                 for ch, dx in reloaded.items():
                     try:
                         sx = pkl.symb(dx.diff)
@@ -367,7 +373,7 @@ def run(ctx, impl_only=False):
                         if json_plain(d.diff) and pkl.symb(dj.diff) != ref:
                             ctx.violate(dict(case, channel='json'), 'JSON-reloaded payload differs')
                         else:
-                            mkj = lambda: Delta(js, bidirectional=bidir, always_include_values=aiv, deserializer=json_loads)
+                            mkj = lambda: Delta(js, bidirectional=bidir, always_include_values=aiv, deserializer=json_loads, raise_errors=rerr)
                             outs = [outcome(lambda b_=b_: copy.deepcopy(b_) + mkj()) for b_ in bases]
                             if bidir:
                                 outs += [outcome(lambda b_=b_: copy.deepcopy(b_) - mkj()) for b_ in bases]
@@ -378,8 +384,8 @@ def run(ctx, impl_only=False):
                             jpath = os.path.join(tmpdir, 'd.json')
                             with open(jpath, 'w') as fh:
                                 dj0.dump(fh)
-                            jl = {'json_path': lambda: Delta(delta_path=jpath, bidirectional=bidir, always_include_values=aiv, deserializer=json_loads),
-                                  'json_file': lambda: Delta(delta_file=io.StringIO(js), bidirectional=bidir, always_include_values=aiv, deserializer=json_loads)}
+                            jl = {'json_path': lambda: Delta(delta_path=jpath, bidirectional=bidir, always_include_values=aiv, deserializer=json_loads, raise_errors=rerr),
+                                  'json_file': lambda: Delta(delta_file=io.StringIO(js), bidirectional=bidir, always_include_values=aiv, deserializer=json_loads, raise_errors=rerr)}
                             for chj, mkx in jl.items():
                                 try:
                                     sj = pkl.symb(mkx().diff)
